@@ -367,6 +367,9 @@ func liveRangeCheck(fn *ssa.Function, ins ssa.Instruction) bool {
 // liveRangeCheckKind: "imm" for Rangechecker.Check(x, n), "collect" for an append of {x, n} to the deferred
 // collection, "" otherwise
 func liveRangeCheckKind(fn *ssa.Function, ins ssa.Instruction) string {
+	if collectsThroughHelper(fn, ins) {
+		return "collect"
+	}
 	if liveRangeCheck1(fn, ins) {
 		if _, ok := ins.(*ssa.Store); ok {
 			return "collect"
@@ -455,6 +458,107 @@ func liveRangeCheck1(fn *ssa.Function, ins ssa.Instruction) bool {
 			}
 		}
 		return hasV && hasBits
+	}
+	return false
+}
+
+// collectsThroughHelper: `p.collect(checkedVariable{v: x, bits: n})` — a call of a method of the same chip whose
+// argument is an element built from the dispatcher's own value and width, and which appends that parameter to the
+// chip's collection
+func collectsThroughHelper(fn *ssa.Function, ins ssa.Instruction) bool {
+	c, ok := ins.(*ssa.Call)
+	if !ok || len(fn.Params) < 3 {
+		return false
+	}
+	g := c.Common().StaticCallee()
+	if g == nil || g.Blocks == nil || g.Pkg != fn.Pkg || len(c.Common().Args) < 2 || c.Common().Args[0] != ssa.Value(fn.Params[0]) {
+		return false
+	}
+	x, n := ssa.Value(fn.Params[1]), ssa.Value(fn.Params[2])
+	for ai, a := range c.Common().Args[1:] {
+		ld, ok := a.(*ssa.UnOp)
+		if !ok || ld.Op != token.MUL {
+			continue
+		}
+		al, ok := ld.X.(*ssa.Alloc)
+		if !ok || al.Referrers() == nil {
+			continue
+		}
+		hasV, hasBits := false, false
+		for _, r := range *al.Referrers() {
+			fa, ok := r.(*ssa.FieldAddr)
+			if !ok || fa.Referrers() == nil {
+				continue
+			}
+			for _, r2 := range *fa.Referrers() {
+				st, ok := r2.(*ssa.Store)
+				if !ok || st.Addr != ssa.Value(fa) {
+					continue
+				}
+				switch fieldName(fa.X.Type(), fa.Field) {
+				case "v":
+					hasV = hasV || stripCopies(st.Val) == x
+				case "bits":
+					hasBits = hasBits || stripCopies(st.Val) == n
+				}
+			}
+		}
+		if hasV && hasBits && appendsParamToCollected(g, ai+1) {
+			return true
+		}
+	}
+	return false
+}
+
+// appendsParamToCollected: on every path g stores append(recv.rangeCheckCollected, param) back into that field
+func appendsParamToCollected(g *ssa.Function, idx int) bool {
+	if idx >= len(g.Params) {
+		return false
+	}
+	recv, prm := ssa.Value(g.Params[0]), ssa.Value(g.Params[idx])
+	fi := GetFnInfo(g)
+	for _, b := range g.Blocks {
+		for _, ins := range b.Instrs {
+			st, ok := ins.(*ssa.Store)
+			if !ok {
+				continue
+			}
+			base, ok := fieldAddrOf(st.Addr, "rangeCheckCollected")
+			if !ok || base != recv || !fi.MustBlock(b) {
+				continue
+			}
+			call, ok := st.Val.(*ssa.Call)
+			if !ok {
+				continue
+			}
+			bi, ok := call.Common().Value.(*ssa.Builtin)
+			if !ok || bi.Name() != "append" || len(call.Common().Args) != 2 {
+				continue
+			}
+			if b0, ok := fieldLoad(call.Common().Args[0], "rangeCheckCollected"); !ok || b0 != recv {
+				continue
+			}
+			sl, ok := call.Common().Args[1].(*ssa.Slice)
+			if !ok {
+				continue
+			}
+			arr, ok := sl.X.(*ssa.Alloc)
+			if !ok || arr.Referrers() == nil {
+				continue
+			}
+			// the single appended element is the parameter itself
+			for _, r := range *arr.Referrers() {
+				ia, ok := r.(*ssa.IndexAddr)
+				if !ok || ia.Referrers() == nil {
+					continue
+				}
+				for _, r2 := range *ia.Referrers() {
+					if es, ok := r2.(*ssa.Store); ok && es.Addr == ssa.Value(ia) && stripCopies(es.Val) == prm {
+						return true
+					}
+				}
+			}
+		}
 	}
 	return false
 }
